@@ -48,3 +48,41 @@ Theorem C01_parse_fuel_monotone :
     parse tb eb false discard f1 (zs w) = Accept s -> parse tb eb false discard f2 (zs w) = Accept s.
 Proof. exact parse_fuel_monotone. Qed.
 Print Assumptions C01_parse_fuel_monotone.
+
+(* ---- cardinality sugar and @list "read as documented" ----
+   Gen/NormalizeModel.normalize mirrors the Normalize pass (which helper rules
+   and productions it creates, in which order); the harness compares it with
+   lox's own production list on every generated grammar.  The documented meaning
+   is the inductive [ssentence] over the SUGARED grammar (x? = zero or one,
+   x* / x*! = zero or more, x+ = one or more, @list(e,s) = e (s e)*,
+   @list(e,s)? = that or nothing).  Together with C01_parse_exact (stated over
+   the plain grammar) this gives: parse succeeds cleanly iff the word is a
+   sentence of the grammar as the user wrote it. *)
+From Lox Require Import Gen.NormalizeModel Gen.NormalizeProofs.
+
+Theorem C01_normalize_sound : forall g w,
+  wf_sgrammar g -> sentence (fst (normalize g)) w -> ssentence g w.
+Proof. exact normalize_sound. Qed.
+Print Assumptions C01_normalize_sound.
+
+Theorem C01_normalize_complete : forall g w,
+  wf_sgrammar g -> ssentence g w -> sentence (fst (normalize g)) w.
+Proof. exact normalize_complete. Qed.
+Print Assumptions C01_normalize_complete.
+
+(* each helper has exactly the two productions of its kind, at the numbers the
+   generated code uses *)
+Theorem C01_helper_shapes : forall g j k,
+  wf_sgrammar g -> nth_error (collect g) j = Some k ->
+  let n := length (sg_rules g) in
+  let h := n + 1 + j in
+  let p1 := 1 + nuser g + 2 * j in
+  let G := fst (normalize g) in
+  nth_error (snd (normalize g)) j = Some (h, key_kind k) /\
+  exists r1 r2,
+    nth_error G p1 = Some {| lhs := h; rhs := r1 |} /\
+    nth_error G (S p1) = Some {| lhs := h; rhs := r2 |} /\
+    (forall p pr, nth_error G p = Some pr -> lhs pr = h -> p = p1 \/ p = S p1) /\
+    shape n (collect g) h k r1 r2.
+Proof. exact helper_shapes. Qed.
+Print Assumptions C01_helper_shapes.
